@@ -20,6 +20,7 @@ MODE_NAMES = {"kill": "SIGKILL", "_exit": "os._exit", "term": "SIGTERM",
               "exc": "unhandled exception", "int": "KeyboardInterrupt/SIGINT",
               "exit": "sys.exit", "none": "no fault"}
 INJECTED_MSG = "c17-injected-fault"
+DIRECT_LABELS = ("c17 direct file", "labelled while the file was open")
 
 
 # --------------------------------------------------------------------------
@@ -96,7 +97,21 @@ def run_pttempo(variant, filename, overwrite=False):
 def run_workload(variant, filename):
     """What the writer process does. The file is closed at the end."""
     overwrite = bool(variant.get("preexisting"))
-    if variant["workload"] == "export":
+    if variant["workload"] == "export" and variant.get("direct"):
+        # the file object is used directly (as tests/data/generate_pts.py of
+        # the repository does): created, LABELLED while open, then filled
+        import oqupy
+        src = build_simple_pt(variant)
+        fpt = oqupy.FileProcessTensor(
+            mode="overwrite" if overwrite else "write", filename=filename,
+            hilbert_space_dimension=src.hilbert_space_dimension, dt=src.dt)
+        fpt.name, fpt.description = DIRECT_LABELS
+        for k in range(len(src)):
+            fpt.set_mpo_tensor(k, src.get_mpo_tensor(k, transformed=False))
+        for k in range(len(src) + 1):
+            fpt.set_cap_tensor(k, src.get_cap_tensor(k))
+        fpt.close()
+    elif variant["workload"] == "export":
         pt = build_simple_pt(variant)
         pt.export(filename, overwrite=overwrite)
     elif variant["workload"] == "pttempo":
@@ -119,7 +134,10 @@ def make_preexisting(variant, filename):
 def expected_pt(variant):
     """In-memory object whose content a cleanly closed file must have."""
     if variant["workload"] == "export":
-        return build_simple_pt(variant)
+        pt = build_simple_pt(variant)
+        if variant.get("direct"):
+            pt.name, pt.description = DIRECT_LABELS
+        return pt
     return run_pttempo(variant, None)
 
 
